@@ -42,7 +42,7 @@ n_ctx = dict(cls='next_op', members=['stream_', 'receiver_', 'concreteReceiver_'
     (r'auto stopToken = get_stop_token\(receiver_\);', 'EV_get_stop_token(this);'),
     (r'stopToken\.stop_requested\(\)', 'EV_stop_requested(this)'),
     (r'static_assert\([^;]*\);', ''),
-    (r'(?s)stream_\.nextOp_\.construct_with\(\[&\] \{.*?\}\);', 'if (EV_nextOp_construct(stream_)) goto vf_catch_out;'),
+    (r'(?s)stream_\.nextOp_\.construct_with\(\[&\] \{\s*return unifex::connect\([^;]*;\s*\}\);', 'if (EV_nextOp_construct(stream_)) goto vf_catch_out;'),
     (r'(?s)stopCallback_\.construct\(\s*std::move\(stopToken\), cancel_next_callback\{stream_\}\);', 'if (EV_cb_construct(this)) goto vf_catch_in;'),
     (r'unifex::start\(stream_\.nextOp_\.get\(\)\);', 'EV_source_next_start(stream_);'),
     (r'stream_\.nextOp_\.destruct\(\);', 'EV_nextOp_destruct(stream_);'),
@@ -60,7 +60,7 @@ l_ctx = dict(cls='cleanup_op', members=['stream_', 'receiver_', 'cleanupOp_'], p
 l_ctx['members'] = ['stream_', 'receiver_']
 
 sc_ctx = dict(cls='cleanup_op', members=['stream_', 'receiver_'], pre=[
-    (r'(?s)cleanupOp_\.construct_with\(\[&\] \{.*?\}\);', 'if (EV_src_cleanup_construct(this)) goto vf_catch;'),
+    (r'(?s)cleanupOp_\.construct_with\(\[&\] \{\s*return unifex::connect\([^;]*;\s*\}\);', 'if (EV_src_cleanup_construct(this)) goto vf_catch;'),
     (r'unifex::start\(cleanupOp_\.get\(\)\);', 'EV_src_cleanup_start(this);'),
     (r'(?s)unifex::set_error\(\s*std::move\(receiver_\), std::move\(stream_\.nextError_\)\);', 'EV_cleanup_error_next(this);'),
     (r'unifex::set_error\(std::move\(receiver_\), std::current_exception\(\)\);', 'EV_cleanup_error(this);'),
